@@ -4,7 +4,7 @@
 def parse(text):
     d = {"core": [], "glsl": [], "opencl": [], "lookup": {}, "get": {}, "get_glsl": {}, "get_opencl": {}, "lookup_glsl": {}, "lookup_opencl": {},
          "lookup_far": [], "reflect": [], "generator_from": [], "version_bad": [], "version_of": [],
-         "probes": [], "header_new": None, "version_checked": None}
+         "probes": [], "header_new": None, "version_checked": None, "impure": []}
 
     def lst(s):
         return [] if s == "-" else s.split(",")
@@ -21,6 +21,8 @@ def parse(text):
             d["get"][int(p[1])] = (p[2], p[3])
         elif k in ("get_glsl", "get_opencl"):
             d[k][int(p[1])] = (p[2], p[3])
+        elif k == "impure":
+            d["impure"].append(p[1:])
         elif k == "lookup_far":
             d["lookup_far"].append((int(p[1]), p[2], p[3]))
         elif k == "reflect":
